@@ -271,6 +271,16 @@ class SymExec:
             if isinstance(e.ops[0], (ast.Is, ast.IsNot)) and (a is None or b is None):
                 same = (a is None) and (b is None)
                 return int(same if isinstance(e.ops[0], ast.Is) else not same)
+            if isinstance(e.ops[0], (ast.In, ast.NotIn)) and isinstance(a, BV) and isinstance(b, (list, tuple)) and all(isinstance(x, (int, BV)) for x in b):
+                hit = 0
+                for x in b:
+                    k = x if isinstance(x, int) else (x.value() if x.is_const() else None)
+                    if k is None:
+                        raise Top("membership in a sequence of symbolic values")
+                    if (int(a.value() == k) if a.is_const() else self.test_eq(a, k)):
+                        hit = 1
+                        break
+                return hit if isinstance(e.ops[0], ast.In) else hit ^ 1
             if isinstance(a, BV) and isinstance(b, BV):
                 if a.is_const() and b.is_const():
                     av, bv = a.value(), b.value()
@@ -309,6 +319,8 @@ class SymExec:
             return 0
         if isinstance(v, bool):
             return int(v)
+        if isinstance(v, (list, tuple)) and not (isinstance(v, tuple) and v and v[0] == "octets"):
+            return int(len(v) > 0)
         if isinstance(v, Opq):
             raise Top(f"condition on other state: {v.what}")
         if not isinstance(v, BV):
@@ -441,6 +453,8 @@ class SymExec:
             raise Top("subscript of unsupported value")
         if isinstance(e, ast.Call):
             return self.call(e, env)
+        if isinstance(e, (ast.Tuple, ast.List)):
+            return [self.ev(x, env) for x in e.elts]
         raise Top(f"expression {type(e).__name__}")
 
     def int_of(self, e, env):
